@@ -145,6 +145,14 @@ def _recovery(spec, ctx):
             # SLSQP stops at, or within a fraction of a percent of, an active bound
             scale_on_bound = p['scale'] >= 0.99 * rng_ ** 2
             loc_on_bound = min(abs(p['loc'] - lo), abs(p['loc'] - hi)) <= 0.01 * rng_
+            # when the generating parameter itself lies beyond the optimiser's bound, the constrained optimum is on
+            # the bound and SLSQP may stop a little further inside it (seen: 98.6 % of the scale bound)
+            t = info if isinstance(info, dict) else {}
+            if t.get('scale', 0) > rng_ ** 2 and p['scale'] >= 0.9 * rng_ ** 2:
+                scale_on_bound = True
+            if not (lo <= t.get('loc', lo) <= hi):
+                near = lo if t['loc'] < lo else hi
+                loc_on_bound = loc_on_bound or abs(p['loc'] - near) <= 0.05 * rng_
             det.update(scale_on_bound=bool(scale_on_bound), loc_on_bound=bool(loc_on_bound), fit_range=rng_)
             if scale_on_bound:
                 mech = 'C04:truncnorm-misfit-scale-on-optimiser-bound'
